@@ -60,127 +60,57 @@ def _data_part(card_text):
     return "\n".join(l.split("$", 1)[0] for l in card_text.split("\n") if not re.match(r"^ {0,4}[cC]( |$)", l))
 
 
-_NONINT = re.compile(r"(?<![\w.])[+-]?(\d+\.\d*|\.\d+|\d+\.?\d*[eEdD][+-]?\d+|\d+\.?\d*[+-]\d+)(?![\w.])")
-
-
 def _value_error_through_parser(f):
     """a ValueError (sub)class that crossed MCNP_Parser.parse: MCNP_Object.__init__ converts those on the unchanged
     tree, so such a leak is never one of the known ones"""
     return "ValueError" in (f.get("mro") or [f.get("cls")]) and "parse" in (f.get("stack") or [])
 
 
-def C13_int_conversion(case, params):
-    """a number that is not an integer stands where MontePy converts with int(): ValueNode._convert_to_int lets the
-    runtime's ValueError out (after the guarded parser call, so nothing converts it)"""
+def C13_fill_matrix_stopiteration(case, params):
+    """a lattice FILL whose ranges ask for more universes than are listed: next() in Fill._parse_matrix raises
+    StopIteration (empty message), which is not among the classes parse_input converts"""
     f = _f(case)
-    if f.get("kind") != "leak" or f.get("cls") != "ValueError" or "_convert_to_int" not in (f.get("stack") or []):
-        return False
-    if not (f.get("msg") or "").startswith("invalid literal for int()") or _value_error_through_parser(f):
+    if f.get("kind") not in ("leak", "empty-message", "check-raises") or f.get("cls") != "StopIteration" \
+            or f.get("func") != "_parse_matrix":
         return False
     card = _matching(case, f)
     if card is None:
         return False
     body = _data_part(_card_text(case, card))
-    m = re.search(r"'([^']*)'", f.get("msg") or "")
-    # the literal int() refused is not an integer and stands in that input — or the input holds an interpolate /
-    # multiply shortcut that generates non-integers (`-57 i 0.5` -> -28.25)
-    if not m or re.match(r"^[+-]?\d+$", m.group(1)):
+    if not re.search(r"(?i)fill", body) or ":" not in body:
         return False
-    shortcut = re.search(r"(?i)(?<![\w.])\d*(i|ilog|log|[\d.]+m)(?![\w.])", body)
-    if m.group(1) not in body and not shortcut:
-        return False
-    return _gone_without(card, f)
+    return _gone_without(card, f, "without_check" if f.get("kind") == "check-raises" else "without")
 
 
-_LEGAL = {}
+def _read_cards(text):
+    """the read inputs of the file: [(text of the card's first line, has a file parameter)]"""
+    out = []
+    for m in re.finditer(r"(?im)^ {0,4}read(\s.*)?$", text):
+        rest = (m.group(1) or "").split("$", 1)[0]
+        out.append((m.group(0), re.search(r"(?i)(^|\s)file\s*(=|\s)\s*\S+", rest) is not None))
+    return out
 
 
-def _legal():
-    if not _LEGAL:
-        import props.C13 as C13
-        _LEGAL.update(C13.legal_chars())
-    return _LEGAL
-
-
-def C13_lexerror(case, params):
-    """a character no lexer rule accepts: sly's LexError is not a ValueError, MCNP_Object.__init__ does not convert it"""
+def C13_read_card_without_file(case, params):
+    """a read input that has parameters but none called FILE: ReadInput.file_name subscripts the missing entry"""
     f = _f(case)
-    if f.get("kind") != "leak" or f.get("cls") != "LexError":
+    if f.get("kind") not in ("leak", "check-raises") or f.get("cls") != "KeyError":
         return False
-    card = _matching(case, f)
-    if card is None:
+    st = f.get("stack") or []
+    if "flush_input" not in st or "file_name" not in st:
         return False
-    legal = _legal()[card["block"] if card["block"] in (0, 1, 2) else 2]
-    body = _data_part(_card_text(case, card))
-    if not any((32 <= ord(ch) < 127) and ch not in legal for ch in body):
-        return False
-    return _gone_without(card, f)
+    return any(not has for _, has in _read_cards(case["text"]))
 
 
-RAW_CLASSES = ("ValueError", "TypeError", "AttributeError", "KeyError", "IndexError")
-RAW_FILES = ("montepy/data_inputs/", "montepy/input_parser/syntax_node.py")
-
-
-def C13_constructor_raw_exception(case, params):
-    """an input the grammar accepts but whose values the constructor of its data-input class (or the ValueNode /
-    ListNode / ShortcutNode helpers it calls) assumes well formed: the runtime's exception comes out unconverted"""
+def C13_check_malformed_read_card(case, params):
+    """check mode: a read input that does not parse: flush_input re-raises the ParsingError out of the generator"""
     f = _f(case)
-    if f.get("kind") != "leak" or f.get("cls") not in RAW_CLASSES:
+    if f.get("kind") != "check-raises" or f.get("cls") != "ParsingError":
         return False
-    if "_convert_to_int" in (f.get("stack") or []) and (f.get("msg") or "").startswith("invalid literal for int()"):
+    st = f.get("stack") or []
+    if "flush_input" not in st:
         return False
-    if _value_error_through_parser(f):
-        return False
-    where = f.get("where") or ""
-    in_scope = where.startswith(RAW_FILES) or ("enum.py" in where and "is not a valid" in (f.get("msg") or ""))
-    if not in_scope:
-        return False
-    card = _matching(case, f)
-    if card is None:
-        return False
-    return _gone_without(card, f)
-
-
-def _universe_facts(text):
-    """(fill universes named, universes declared) read from the text by the independent reader"""
-    import spec
-    sf = spec.split_file(text, 128)
-    blocks = sf["blocks"] + [[]] * (3 - len(sf["blocks"]))
-    fills, unis = set(), set()
-    for card in blocks[0]:
-        toks = spec.tokens(card.text, cell_geometry=True)
-        for i, t in enumerate(toks):
-            if t in ("FILL", "*FILL") and i + 1 < len(toks) and re.match(r"^\+?\d+(\.0*)?$", toks[i + 1]):
-                fills.add(int(float(toks[i + 1])))
-            if t == "U" and i + 1 < len(toks) and re.match(r"^-?\d+$", toks[i + 1]):
-                unis.add(abs(int(toks[i + 1])))
-    for card in blocks[2]:
-        toks = spec.tokens(card.text)
-        if not toks:
-            continue
-        vals = [v for v in spec.expand_shortcuts(toks[1:]) if hasattr(v, "numerator")]
-        if toks[0] in ("FILL", "*FILL"):
-            fills.update(int(v) for v in vals if v == int(v))
-        if toks[0] == "U":
-            unis.update(abs(int(v)) for v in vals if v == int(v))
-    return fills, unis
-
-
-def C13_fill_dangling_universe(case, params):
-    """FILL names a universe no cell declares: Fill.push_to_cells looks it up by number, KeyError comes out"""
-    f = _f(case)
-    # (in check mode the same look-up is reached when normal mode stopped earlier at another error)
-    if f.get("kind") not in ("leak", "check-raises") or f.get("cls") != "KeyError" \
-            or "get_universe" not in (f.get("stack") or []):
-        return False
-    if not _all_construct(case) and (case.get("iso") or {}).get("out") != "skipped":
-        return False
-    fills, unis = _universe_facts(case["text"])
-    if any(n > 0 and n not in unis for n in fills):
-        return True
-    # ... or the data-block U / FILL input holds an entry that is no number: the universes end up on other cells
-    cards, ncell = _per_cell_cards(case["text"])
-    return any(junk for w, n, junk in cards if w in ("u", "fill", "*fill"))
+    return any(not has for _, has in _read_cards(case["text"]))
 
 
 PER_CELL = re.compile(r"^(\*?fill|imp:.*|vol|u|lat)$")
@@ -220,23 +150,6 @@ def C13_cell_data_card_length(case, params):
     return any(n != ncell or junk for w, n, junk in cards)
 
 
-CAUGHT_PER_INPUT = ("MalformedInputError", "NumberConflictError", "ParsingError", "UnknownElement")
-
-
-def C13_check_constructor_errors(case, params):
-    """check mode: the per-input handler of parse_input only names four classes; any other exception of an input's
-    constructor (the explicit ValueError / TypeError MontePy raises for bad values included) still raises"""
-    f = _f(case)
-    if f.get("kind") != "check-raises":
-        return False
-    card = _matching(case, f)
-    if card is None:
-        return False
-    if any(c in (card["exc"].get("mro") or []) for c in CAUGHT_PER_INPUT):
-        return False
-    return _gone_without(card, f, "without_check")
-
-
 def _data_words(text):
     import spec
     sf = spec.split_file(text, 128)
@@ -246,26 +159,6 @@ def _data_words(text):
 
 def _read_targets(text):
     return [m.group(1) for m in re.finditer(r"(?im)^ {0,4}read\s+.*?file\s*=?\s*(\S+)", text)]
-
-
-def C13_check_number_conflict(case, params):
-    """check mode: self._materials.append / self._transforms.append stand after the per-input try statement: a second
-    material or transform with the same number (also through a read card that re-reads the file) still raises"""
-    f = _f(case)
-    if f.get("kind") != "check-raises" or f.get("cls") != "NumberConflictError" or f.get("func") != "append":
-        return False
-    st = f.get("stack") or []
-    if len(st) < 2 or st[-2] != "parse_input":
-        return False
-    nums = {}
-    for w in _data_words(case["text"]):
-        m = re.match(r"^\*?(m|tr)(\d+)$", w)
-        if m:
-            k = (m.group(1), int(m.group(2)))
-            nums[k] = nums.get(k, 0) + 1
-    dup = any(v > 1 for v in nums.values())
-    rereads = case.get("name", "case.i") in _read_targets(case["text"]) and bool(nums)
-    return dup or rereads
 
 
 def C13_check_missing_read_target(case, params):
@@ -297,64 +190,6 @@ def C13_check_knock_on(case, params):
         return True
     import props.C13 as C13
     return any("is used twice" in r for r in C13.spec_read(case["text"])["invalid"])
-
-
-def _particles(text):
-    """(particles of the MODE input (default n), particles the IMP inputs name) read from the text"""
-    import spec
-    sf = spec.split_file(text, 128)
-    blocks = sf["blocks"] + [[]] * (3 - len(sf["blocks"]))
-    mode = None
-    imp = set()
-    for card in blocks[2]:
-        toks = spec.tokens(card.text)
-        if toks and toks[0] == "MODE":
-            mode = {t.lower() for t in toks[1:]}
-        if toks and toks[0].startswith("IMP:"):
-            imp.update(x.lower() for x in toks[0][4:].split(",") if x)
-    for card in blocks[0]:
-        for m in re.finditer(r"(?i)imp\s*:\s*([a-z#|+\-/!<>%^_~@*?,\s]+?)\s*[= ]", card.text + " "):
-            imp.update(x.strip().lower() for x in m.group(1).split(",") if x.strip())
-    return (mode if mode is not None else {"n"}), imp
-
-
-def C13_check_particle_not_in_mode(case, params):
-    """check mode: an IMP input names a particle that MODE does not (or MODE is missing): the handler around
-    push_to_cells (Cells.__setup_blank_cell_modifiers) only names MalformedInputError, ParticleTypeNotInProblem raises"""
-    f = _f(case)
-    if f.get("kind") != "check-raises" or f.get("cls") not in ("ParticleTypeNotInProblem", "ParticleTypeNotInCell"):
-        return False
-    if "__setup_blank_cell_modifiers" not in (f.get("stack") or []):
-        return False
-    mode, imp = _particles(case["text"])
-    return bool(imp - mode)
-
-
-def C13_check_duplicate_mode(case, params):
-    """check mode: __load_data_inputs_to_object raises MalformedInputError for a second MODE input outside any handler"""
-    f = _f(case)
-    if f.get("kind") != "check-raises" or f.get("func") != "__load_data_inputs_to_object":
-        return False
-    return sum(1 for w in _data_words(case["text"]) if w == "mode") >= 2
-
-
-def C13_nonpositive_number(case, params):
-    """a cell number <= 0 or a negative material number is read without any error"""
-    f = _f(case)
-    if f.get("kind") != "accepted-malformed":
-        return False
-    import props.C13 as C13
-    reasons = C13.spec_read(case["text"])["invalid"]
-    return bool(reasons) and (reasons[0].startswith("cell number") or reasons[0].startswith("material number"))
-
-
-def C13_past_terminator(case, params):
-    """cards after the blank line that ends the data block are read as data inputs"""
-    f = _f(case)
-    if f.get("kind") != "reads-past-terminator":
-        return False
-    import props.C13 as C13
-    return bool(C13.trailing_cards(case["text"]))
 
 
 def C13_check_read_cycle(case, params):
